@@ -166,7 +166,50 @@ def check_batch(ctx, n):
             bad1.append((p, f'{len(r.tree)} tree writes for {n} items')); continue
         names_item = ex.src.struct_fields('batch::item::Item')
         ok = True; why = ''
-        for i, t in enumerate(r.tree):
+        # which item does each tree write belong to (by its key); items of different keyspaces may be applied in any order, items that can
+        # belong to the same keyspace must keep the order in which they were added (same seqno: the later apply wins)
+        import re as _re
+        owner = []
+        for t in r.tree:
+            k = t.args.get('key')
+            m_ = _re.match(r'item(\d+)\.key', k.name) if isinstance(k, Obj) else None
+            owner.append(int(m_.group(1)) if m_ else None)
+        if None in owner or sorted(owner) != list(range(n)):
+            bad1.append((p, f'the tree writes carry the keys of items {owner}: not every item is applied exactly once')); continue
+
+        def ks_id(i):
+            from .c05 import find_objs
+            data = deref(wb).fields.get(ex.src.struct_fields('batch::WriteBatch').index('data')) if isinstance(deref(wb), Obj) else None
+            for t in r.tree:
+                pass
+            return None
+        pos = {it: r.tree[q].idx for q, it in enumerate(owner)}
+        for a_ in range(n):
+            for b_ in range(a_ + 1, n):
+                if pos[a_] > pos[b_]:
+                    ida = [c for c in p.pc if f'item{a_}.keyspace' in str(c) and f'item{b_}.keyspace' in str(c)]
+                    ta = [e for e in r.tree if owner[r.tree.index(e)] == a_][0]; tb = [e for e in r.tree if owner[r.tree.index(e)] == b_][0]
+                    # the two items can be in the same keyspace unless the path says their keyspace ids differ
+                    idvars = {}
+                    for c in p.pc:
+                        for sub in _subterms(c):
+                            if z3.is_const(sub) and z3.is_bv(sub):
+                                sn = str(sub)
+                                for q in (a_, b_):
+                                    if sn.startswith(f'item{q}.keyspace') and sn.split('!')[0].endswith('.id'):
+                                        idvars[q] = sub
+                    same_possible = True
+                    if a_ in idvars and b_ in idvars:
+                        same_possible = ctx.sat(p.pc + [idvars[a_] == idvars[b_]], o1)[0] == z3.sat
+                    if same_possible:
+                        ok = False; why = (f'item {b_} is applied before item {a_} although both can belong to the same keyspace: with one seqno for the whole batch the later apply wins, '
+                                           f'so an earlier write of the batch can override a later one'); break
+            if not ok:
+                break
+        if not ok:
+            bad1.append((p, why)); continue
+        for q, t in enumerate(r.tree):
+            i = owner[q]
             if ctx.sat(p.pc + [t.args['seqno'] != s], o1)[0] != z3.unsat:
                 ok = False; why = f'item {i} is applied with a seqno different from the batch seqno'; break
             if f'item{i}.' not in obj_name(t) and not obj_name(t).startswith(f'item{i}'):
